@@ -151,9 +151,7 @@ func (h Handler) handleError(ctx context.Context, token string) http.HandlerFunc
 		}
 
 		if token != "" {
-			if err := h.Tokens.InvalidateToken(ctx); err != nil {
-				slog.Warn("invalidating token", "error", err)
-			}
+			h.invalidateToken(ctx)
 		}
 	}
 }
@@ -224,9 +222,10 @@ func (h Handler) writeResponse(ctx context.Context, w http.ResponseWriter, msgTy
 	// Perform business logic of message handling
 	respType, respData := resp.Respond(ctx, msgType, msg)
 	if respType == protocol.ErrorMsgType {
-		if err := h.Tokens.InvalidateToken(ctx); err != nil {
-			slog.Warn("invalidating token", "error", err)
-		}
+		// The error may itself be the result of the request context having been
+		// cancelled (client hang-up), so the session must not be destroyed
+		// under that context
+		h.invalidateToken(ctx)
 	}
 
 	// Encrypt TO2 messages beginning with 64
